@@ -207,16 +207,29 @@ theorem versions_capacity (s : Str) (v : KeyFormatVersions) (h : KeyFormatVersio
   | err => rw [hm] at h; cases h
   | panic => rw [hm] at h; cases h
 
-/-- FULL STATEMENT (not true of the current code — K6): `DecryptionKeyBuilder::build` demands a
-non-empty URI like the text parser. What holds: it demands the two fields to be *set*. -/
-theorem decryptionKey_builder_partial (b : DecryptionKeyBuilder) :
-    (b.build).isOk = true ↔ b.method.isSome = true ∧ b.uri.isSome = true := by
+/-- `DecryptionKeyBuilder::build` demands METHOD and a non-blank URI, like the text parser (full statement since the
+`fix:` that added the URI test to the builder's `validate`; before it an empty URI built — former finding K6b) -/
+theorem decryptionKey_builder_ok_iff (b : DecryptionKeyBuilder) :
+    (b.build).isOk = true ↔ b.method.isSome = true ∧ ∃ u, b.uri = some u ∧ (trim u).isEmpty = false := by
   obtain ⟨m, u, i, f, v⟩ := b
-  cases m <;> cases u <;> simp [DecryptionKeyBuilder.build, Res.isOk]
+  cases m with
+  | none => cases u <;> simp [DecryptionKeyBuilder.build, Res.isOk]
+  | some m0 =>
+    cases u with
+    | none => simp [DecryptionKeyBuilder.build, Res.isOk]
+    | some u0 =>
+      simp only [DecryptionKeyBuilder.build]
+      cases h : (trim u0).isEmpty
+      · simp only [Bool.false_eq_true, if_false, Res.isOk, Option.isSome_some, true_and]
+        exact ⟨fun _ => ⟨u0, rfl, h⟩, fun _ => trivial⟩
+      · simp only [if_true, Res.isOk, Option.isSome_some, true_and]
+        constructor
+        · intro e; cases e
+        · rintro ⟨u, e, hu⟩; cases e; rw [h] at hu; cases hu
 
-theorem decryptionKey_builder_counterexample :
-    ∃ b : DecryptionKeyBuilder, (b.build).isOk = true ∧ b.uri = some [] :=
-  ⟨{ method := some .aes128, uri := some [] }, by decide, rfl⟩
+/-- the former counterexample: an empty URI no longer builds -/
+theorem decryptionKey_builder_empty_uri_rejected :
+    (({ method := some .aes128, uri := some [] } : DecryptionKeyBuilder).build).isOk = false := by decide
 
 /-! ## stream tags, EXT-X-START -/
 
